@@ -89,6 +89,7 @@ type config struct {
 	names   []nameCand
 	domains []string
 	ctr     int
+	regs    []region
 }
 
 type addrCand struct {
@@ -114,6 +115,19 @@ func bitAt(b []byte, i int) byte { return (b[i/8] >> (7 - uint(i%8))) & 1 }
 func inNet(p netip.Prefix, a netip.Addr) bool {
 	a = a.Unmap()
 	pa := p.Addr()
+	if pa.Is4In6() {
+		// A subnet written in the IPv4-mapped IPv6 form (only the delivery
+		// phase generates these).  Its meaning for IPv4 clients is not
+		// documented: read literally it contains no client at all (client
+		// addresses are normalised to IPv4), read as its IPv4 equivalent it
+		// is the IPv4 subnet with 96 bits less.  The phase evaluates both
+		// readings and only judges requests on which they agree.
+		if !mappedCIDRAsV4 || p.Bits() < 96 {
+			return false
+		}
+		p = netip.PrefixFrom(pa.Unmap(), p.Bits()-96)
+		pa = p.Addr()
+	}
 	if pa.Is4() != a.Is4() {
 		return false
 	}
@@ -125,6 +139,10 @@ func inNet(p netip.Prefix, a netip.Addr) bool {
 	}
 	return true
 }
+
+// mappedCIDRAsV4 selects the reading of IPv4-mapped subnets, see inNet.  The
+// check is sequential.
+var mappedCIDRAsV4 bool
 
 func firstOf(p netip.Prefix) netip.Addr { return p.Masked().Addr() }
 
@@ -405,6 +423,7 @@ func genConfig(rng *rand.Rand, idx int) *config {
 	for _, n := range neutralAddrs {
 		c.addrs = append(c.addrs, addrCand{n, "neutral", "neutral"})
 	}
+	c.regs = regs
 	// global access
 	c.GlobalNets = genNets(rng, regs, []int{0, 0, 1, 1, 1, 2, 3}[rng.IntN(7)], nil)
 	for _, p := range c.GlobalNets {
@@ -644,6 +663,13 @@ func (d *countingDB) ProfileByLinkedIP(ctx context.Context, ip netip.Addr) (*agd
 }
 
 type env struct {
+	// keySuffix is appended to every violation key of checkProbe, bktPrefix
+	// is put before every bucket name (phases other than the main one).
+	keySuffix, bktPrefix string
+	note                 string
+	hasMappedCIDR        bool
+	tagKey               func(p *probe, v verdict) string
+
 	profs []*agd.Profile // the profiles in the database, by index
 	db    *countingDB
 	geo   *stack.Geo
@@ -689,7 +715,7 @@ func clientFilterConf() *filter.ConfigClient {
 		RuleList: &filter.ConfigRuleList{}, SafeBrowsing: &filter.ConfigSafeBrowsing{}}
 }
 
-func buildEnv(c *config) (*env, error) {
+func buildEnv(c *config, dbOverride profiledb.Interface) (*env, error) {
 	e := &env{c: c, srv: map[string]*agd.Server{}, grpOf: map[string]*agd.ServerGroup{}, local: map[string]netip.AddrPort{}, warm: map[string]bool{}}
 	add := func(g *agd.ServerGroup, name string, proto agd.Protocol, addr string, linked bool) {
 		ap := netip.MustParseAddrPort(addr)
@@ -752,6 +778,9 @@ func buildEnv(c *config) (*env, error) {
 		geo.SetSubnet(ctry, 0, 6, netip.MustParsePrefix("2001:db8:aa::/48"))
 	}
 	e.db, e.geo = &countingDB{inner: db}, geo
+	if dbOverride != nil {
+		e.db.inner = dbOverride
+	}
 	cc := &dnssvc.CacheConfig{Type: dnssvc.CacheTypeSimple, NoECSCount: 100000, ECSCount: 100000}
 	if c.Cache == "ecs" {
 		cc.Type = dnssvc.CacheTypeECS
@@ -1231,7 +1260,7 @@ func TestCheck(t *testing.T) {
 	for ci := 0; ci < nCfg; ci++ {
 		rng := r.Rand("cfg", ci)
 		c := genConfig(rng, ci)
-		e, err := buildEnv(c)
+		e, err := buildEnv(c, nil)
 		if err != nil {
 			r.Violation("config-rejected", "a configuration in the documented grammar was rejected: "+err.Error(), map[string]any{"config": c})
 			continue
@@ -1252,6 +1281,7 @@ func TestCheck(t *testing.T) {
 		malformedPhase(r, e, rng, &msgID)
 		settingsRoundTrip(r, e, attributed, &msgID)
 	}
+	deliveryPhase(r, sampled, &attrMismatch)
 	if attrMismatch > 0 {
 		r.Inconclusive(fmt.Sprintf("%d requests were attributed differently from what the harness intended (see bucket attribution_mismatch): the model judged them with the wrong profile", attrMismatch))
 	}
@@ -1316,7 +1346,30 @@ func checkProbe(r *vkit.Run, e *env, p *probe, msgID *uint16, sampled map[string
 	cold := !e.warm[key]
 
 	out, o := e.serve(p, m)
-	w := witness{Config: c, Probe: p, Model: v, Observed: o}
+	w := witness{Config: c, Probe: p, Model: v, Observed: o, Note: e.note}
+
+	if e.hasMappedCIDR {
+		// the two readings of IPv4-mapped subnets (see inNet) must agree,
+		// otherwise the request is only counted
+		mappedCIDRAsV4 = true
+		v2 := c.judge(client, p.Name, p.QType, p.Prof)
+		mappedCIDRAsV4 = false
+		if v2.Blocked != v.Blocked {
+			e.warm[key] = true
+			e.bkt(r, "ambiguous_mapped_cidr", 1)
+			if (o.Responses == 0) == v.Blocked {
+				e.bkt(r, "ambiguous_mapped_cidr_observed_literal_reading", 1)
+			} else {
+				e.bkt(r, "ambiguous_mapped_cidr_observed_ipv4_reading", 1)
+			}
+			return
+		}
+	}
+	if e.tagKey != nil {
+		// phase-specific refinement of the violation keys of this request
+		defer func(old string) { e.keySuffix = old }(e.keySuffix)
+		e.keySuffix += e.tagKey(p, v)
+	}
 
 	// evidence accounting
 	ak, _, _ := strings.Cut(p.AddrKind, "/")
@@ -1324,18 +1377,18 @@ func checkProbe(r *vkit.Run, e *env, p *probe, msgID *uint16, sampled map[string
 	nameTouches := nk != "neutral" && nk != "root"
 	addrTouches := v.GNet || v.PAlwNet || v.PAlwASN || v.PBlkNet || v.PBlkASN
 	meth := p.Method
-	class := fmt.Sprintf("%s|%s|%s|m%d|%s|t%d", meth, v.bits(), ak, b2i(p.Mapped), nk, b2i(v.TypeDecisive))
+	class := fmt.Sprintf("%s%s|%s|%s|m%d|%s|t%d", e.bktPrefix, meth, v.bits(), ak, b2i(p.Mapped), nk, b2i(v.TypeDecisive))
 	r.Eval(class, nameTouches || addrTouches || v.Blocked)
 	if p.Prof >= 0 {
-		r.Bucket("attributed_total", 1)
+		e.bkt(r, "attributed_total", 1)
 	} else {
-		r.Bucket("anonymous_total", 1)
+		e.bkt(r, "anonymous_total", 1)
 	}
 	if p.ECS != "" {
-		r.Bucket("ecs_option_probes", 1)
+		e.bkt(r, "ecs_option_probes", 1)
 	}
 	if o.Panic != "" {
-		r.Violation("panic:serve", "the handler panicked on a legal request", w)
+		e.vio(r, "panic:serve", "the handler panicked on a legal request", w)
 		return
 	}
 
@@ -1344,44 +1397,44 @@ func checkProbe(r *vkit.Run, e *env, p *probe, msgID *uint16, sampled map[string
 		suffix := cause
 		if p.Mapped {
 			suffix += ":ipv4-mapped"
-			r.Bucket("blocked_ipv4_mapped", 1)
+			e.bkt(r, "blocked_ipv4_mapped", 1)
 		}
-		r.Bucket("blocked_total", 1)
-		r.Bucket("cause_"+cause, 1)
-		r.Bucket("blocked_by_method_"+meth, 1)
-		r.Bucket("blocked_addr_kind_"+ak, 1)
-		r.Bucket("blocked_ratelimiter_checks", int64(o.RLChecks))
-		r.Bucket("blocked_collected_errors", int64(len(o.Errors)))
+		e.bkt(r, "blocked_total", 1)
+		e.bkt(r, "cause_"+cause, 1)
+		e.bkt(r, "blocked_by_method_"+meth, 1)
+		e.bkt(r, "blocked_addr_kind_"+ak, 1)
+		e.bkt(r, "blocked_ratelimiter_checks", int64(o.RLChecks))
+		e.bkt(r, "blocked_collected_errors", int64(len(o.Errors)))
 		if !sampled["b:"+cause] {
 			sampled["b:"+cause] = true
 			r.Sample(map[string]any{"probe": p, "model": v, "observed": o})
 		}
 		if o.Responses > 0 {
-			r.Violation("blocked:response-written:"+suffix, "a request that the access settings reject received a response", w)
+			e.vio(r, "blocked:response-written:"+suffix, "a request that the access settings reject received a response", w)
 		}
 		if o.Err != "" {
-			r.Violation("blocked:handler-error:"+suffix, "a request that the access settings reject made the handler return an error (the server answers SERVFAIL then)", w)
+			e.vio(r, "blocked:handler-error:"+suffix, "a request that the access settings reject made the handler return an error (the server answers SERVFAIL then)", w)
 		}
 		if o.SideEffects > 0 || o.UpstreamDelta != 0 || o.RLCounts > 0 {
-			r.Violation("blocked:side-effects:"+suffix, "a request that the access settings reject reached a later stage (see observed counters)", w)
+			e.vio(r, "blocked:side-effects:"+suffix, "a request that the access settings reject reached a later stage (see observed counters)", w)
 		}
-		r.Bucket("blocked_geoip_calls", o.GeoIP)
+		e.bkt(r, "blocked_geoip_calls", o.GeoIP)
 		if v.GNet || v.GName {
-			r.Bucket("globally_blocked_profiledb_observed", 1)
+			e.bkt(r, "globally_blocked_profiledb_observed", 1)
 			if o.ProfileDB > 0 {
-				r.Violation("blocked:profiledb-consulted:"+suffix, "a globally blocked request reached the device / profile-database lookup before it was dropped", w)
+				e.vio(r, "blocked:profiledb-consulted:"+suffix, "a globally blocked request reached the device / profile-database lookup before it was dropped", w)
 			}
 		} else {
-			r.Bucket("profile_blocked_profiledb_lookups", o.ProfileDB)
+			e.bkt(r, "profile_blocked_profiledb_lookups", o.ProfileDB)
 		}
 		// not cached: an identical request from a client nobody rejects must
 		// be resolved upstream
 		if !cold {
-			r.Bucket("twin_skipped_warm", 1)
+			e.bkt(r, "twin_skipped_warm", 1)
 			return
 		}
 		if v.GName {
-			r.Bucket("twin_skipped_name_globally_blocked", 1)
+			e.bkt(r, "twin_skipped_name_globally_blocked", 1)
 			return
 		}
 		tw := *p
@@ -1395,7 +1448,7 @@ func checkProbe(r *vkit.Run, e *env, p *probe, msgID *uint16, sampled map[string
 			}
 		}
 		if !found {
-			r.Bucket("twin_skipped_no_allowed_client", 1)
+			e.bkt(r, "twin_skipped_no_allowed_client", 1)
 			return
 		}
 		*msgID++
@@ -1405,29 +1458,29 @@ func checkProbe(r *vkit.Run, e *env, p *probe, msgID *uint16, sampled map[string
 		}
 		_, to := e.serve(&tw, tm)
 		e.warm[key] = true
-		r.Bucket("twin_cold_checked", 1)
+		e.bkt(r, "twin_cold_checked", 1)
 		tw2 := tw
 		w2 := witness{Config: c, Probe: p, Model: v, Observed: to, Twin: &tw2, Note: "observed = what the twin request (identical question, allowed client) saw after the blocked request"}
 		switch {
 		case to.Panic != "" || to.Err != "" || to.Responses != 1:
-			r.Violation("allowed:abnormal:twin-after-blocked", "an allowed request identical to a just-blocked one was not processed normally", w2)
+			e.vio(r, "allowed:abnormal:twin-after-blocked", "an allowed request identical to a just-blocked one was not processed normally", w2)
 		case to.Upstream != 1:
-			r.Violation("blocked:cached:"+suffix, "after a blocked request, the first identical request of an allowed client did not reach the upstream: the blocked request left something in the cache", w2)
+			e.vio(r, "blocked:cached:"+suffix, "after a blocked request, the first identical request of an allowed client did not reach the upstream: the blocked request left something in the cache", w2)
 		}
 		return
 	}
 
 	// not blocked: processed normally
 	pc := passClass(c, p, v)
-	r.Bucket("passed_total", 1)
-	r.Bucket("pass_"+pc, 1)
-	r.Bucket("passed_by_method_"+meth, 1)
-	r.Bucket("passed_addr_kind_"+ak, 1)
+	e.bkt(r, "passed_total", 1)
+	e.bkt(r, "pass_"+pc, 1)
+	e.bkt(r, "passed_by_method_"+meth, 1)
+	e.bkt(r, "passed_addr_kind_"+ak, 1)
 	if (v.PBlkNet || v.PBlkASN) && v.PAlwASN && !v.PAlwNet {
-		r.Bucket("pass_allowed-asn-decisive", 1)
+		e.bkt(r, "pass_allowed-asn-decisive", 1)
 	}
 	if (v.PBlkNet || v.PBlkASN) && v.PAlwNet && !v.PAlwASN {
-		r.Bucket("pass_allowed-net-decisive", 1)
+		e.bkt(r, "pass_allowed-net-decisive", 1)
 	}
 	if !sampled["p:"+pc] && (pc == "allow-overrides-block" || pc == "other-profile-would-block") {
 		sampled["p:"+pc] = true
@@ -1436,30 +1489,30 @@ func checkProbe(r *vkit.Run, e *env, p *probe, msgID *uint16, sampled map[string
 	e.warm[key] = true
 	switch {
 	case o.Responses == 0 && o.Err == "":
-		r.Violation("allowed:dropped:"+pc, "a request that no access rule rejects was dropped silently", w)
+		e.vio(r, "allowed:dropped:"+pc, "a request that no access rule rejects was dropped silently", w)
 		return
 	case o.Err != "":
-		r.Violation("allowed:abnormal:handler-error:"+pc, "a request that no access rule rejects made the handler fail", w)
+		e.vio(r, "allowed:abnormal:handler-error:"+pc, "a request that no access rule rejects made the handler fail", w)
 		return
 	case o.Responses != 1:
-		r.Violation("allowed:abnormal:responses:"+pc, "a request that no access rule rejects received more than one response", w)
+		e.vio(r, "allowed:abnormal:responses:"+pc, "a request that no access rule rejects received more than one response", w)
 		return
 	}
 	if o.Upstream == 0 {
-		r.Bucket("cache_hits_on_passed", 1)
+		e.bkt(r, "cache_hits_on_passed", 1)
 	}
 	if cold && o.Upstream != 1 {
 		w.Note = "question never asked before in this stack"
-		r.Violation("allowed:abnormal:not-resolved:"+pc, "a request that no access rule rejects, for a question never seen before, did not reach the upstream exactly once", w)
+		e.vio(r, "allowed:abnormal:not-resolved:"+pc, "a request that no access rule rejects, for a question never seen before, did not reach the upstream exactly once", w)
 	} else if o.Upstream > 1 {
-		r.Violation("allowed:abnormal:upstream-calls:"+pc, "more than one upstream call for one request", w)
+		e.vio(r, "allowed:abnormal:upstream-calls:"+pc, "more than one upstream call for one request", w)
 	}
 	// the response is the answer to this request
 	if resp := out.Resp(); resp == nil || resp.Id != reqID || !resp.Response || len(resp.Question) != 1 ||
 		resp.Question[0].Qtype != reqQ.Qtype || !strings.EqualFold(resp.Question[0].Name, reqQ.Name) {
-		r.Violation("allowed:abnormal:foreign-response:"+pc, "the response written does not belong to the request", w)
+		e.vio(r, "allowed:abnormal:foreign-response:"+pc, "the response written does not belong to the request", w)
 	} else if resp.Rcode != dns.RcodeSuccess {
-		r.Violation("allowed:abnormal:rcode:"+pc, "a request that no access rule rejects was not answered with the upstream's (successful) answer", w)
+		e.vio(r, "allowed:abnormal:rcode:"+pc, "a request that no access rule rejects was not answered with the upstream's (successful) answer", w)
 	}
 	// attribution sanity: the profile that was billed / seen upstream is the
 	// one the model judged with
@@ -1469,12 +1522,16 @@ func checkProbe(r *vkit.Run, e *env, p *probe, msgID *uint16, sampled map[string
 	}
 	if gotDev != p.Dev || (o.Upstream > 0 && o.AttrDev != p.Dev) {
 		*attrMismatch++
-		r.Bucket("attribution_mismatch", 1)
+		e.bkt(r, "attribution_mismatch", 1)
 		if *attrMismatch == 1 {
 			r.Extra("first_attribution_mismatch", w)
 		}
 	}
 }
+
+func (e *env) vio(r *vkit.Run, key, what string, w any) { r.Violation(key+e.keySuffix, what, w) }
+
+func (e *env) bkt(r *vkit.Run, name string, n int64) { r.Bucket(e.bktPrefix+name, n) }
 
 // compareConfigs: Profile.Config() is what is stored (profile file cache) and
 // what every consumer of the settings reads; it must equal, field by field and
